@@ -42,6 +42,15 @@ Definition distinct_keys {A} (eqb : A -> A -> bool) (l : list A) : Prop :=
 Definition keys_distinct (g : cfg) : Prop :=
   distinct_keys assignment_eqb (filter_map assignment_of (all_stmts g)).
 
+(* the source-level form of the hypothesis: no two `<--` statements agree in
+   location, base name of the assigned variable and component path — what the
+   statement keeps of its source text whatever SSA versions, generated
+   suffixes, index expressions and degree claims are.  It implies
+   [keys_distinct] (Proofs.SignalAssignProofs.subkeys_distinct_suffice) and is
+   what the check compares with the generator's record of the written text. *)
+Definition subkeys_distinct (g : cfg) : Prop :=
+  distinct_keys subkey_eqb (filter_map assignment_of (all_stmts g)).
+
 (* no two constraint statements have the same (meta, lhe, rhe) *)
 Definition constraint_keys_distinct (g : cfg) : Prop :=
   distinct_keys constraint_eqb (filter_map (constraint_of (c_decls g)) (all_stmts g)).
